@@ -125,6 +125,26 @@ class C13(Property):
             s.add("P.1.%s" % nu.eth_frame(host, nu.mac(1), vlan), "A", "O.1", "O.2", "O.3")
             s.add("S.1")
             out.append(s.line())
+        # a stray handshake for a live peer's address (a replayed ping) that never completes and times out after 120 s is none of
+        # "S moved / S silent / P disconnected": what was learned from P stays, while the host behind P keeps talking
+        for _ in range(12 if thorough else 3):
+            mode = rng.choice(["tap-switch", "tap-normal"])
+            s = nu.Scenario()
+            for i in (1, 2, 3):
+                s.node(i, mode=mode, st=3600)
+            s.add("C.2.1", "A", "C.3.1", "A")            # datagram 0: node 2's ping to node 1
+            s.tick(rng.choice([3, 70]))
+            host = nu.mac(45)
+            s.add("P.2.%s" % nu.eth_frame(b"\xff" * 6, host), "A", "O.1", "O.2", "O.3")
+            s.add("J.0.1.2")                               # the stray handshake entry at node 1 for node 2's address
+            for k in range(130):
+                s.tick(1)
+                if k % 20 == 19:
+                    s.add("P.2.%s" % nu.eth_frame(b"\xff" * 6, host), "A", "O.1", "O.2", "O.3")
+                if k in (60, 118, 119, 121, 122, 125, 129):
+                    s.add("P.1.%s" % nu.eth_frame(host, nu.mac(1)), "A", "O.1", "O.2", "O.3")
+            s.add("S.1")
+            out.append(s.line())
         # a peer whose public address changes while it keeps running (NAT rebinding): learned entries never point at a non-peer
         out += ru.rebind_cases(rng, 12 if thorough else 3, learning=True)
         # hub and router mode with the IP dissector and claims: packets whose source address lies in ANOTHER node's
